@@ -35,6 +35,8 @@ func main() {
 			"on the transparent TLS listener there is no CONNECT, hence no tunnel authority and no CONNECT session; requests without any host are not generated there",
 			"'the connection's TLS state attached' is checked as req.TLS != nil with the version, cipher suite and server name the client negotiated and HandshakeComplete",
 			"'handed the decrypted connection' is decided behaviourally: bytes the hijacker writes on the net.Conn returned by Session.Hijack must arrive as plaintext inside the client's TLS session, and the client's reply must be readable from that net.Conn",
+			"a CONNECT sent inside an already decrypted connection counts as a request decrypted from the tunnel (scheme https, secure session, TLS state); cleartext requests that follow a handshake the proxy refused count as cleartext traffic inside the tunnel",
+			"exchanges slower than 10 s at the origin are only generated in the thorough tier (wall-clock lower bound; the 60 s harness watchdog is inconclusive)",
 			"the client verifies the forged certificate against the CA (host names are well-formed; certificate issuance is C06's subject)",
 		},
 		RaceFiles: []string{"proxy.go", "context.go", "/mitm/"},
@@ -50,6 +52,10 @@ func main() {
 			for i := 0; i < nr; i++ {
 				bs = append(bs, vh.Batch{Name: fmt.Sprintf("race-%d", i), Race: true, TimeoutS: 1500})
 			}
+			if tier == "thorough" {
+				// exchanges that take longer than 10 s at the origin (wall-clock lower bound): thorough only
+				bs = append(bs, vh.Batch{Name: "slow-0", TimeoutS: 1500}, vh.Batch{Name: "slow-1", TimeoutS: 1500})
+			}
 			return bs
 		},
 		Run:    run,
@@ -61,14 +67,15 @@ func main() {
 // specs
 
 type req5 struct {
-	X      string `json:"x"`
-	Form   string `json:"form"`   // origin | origin-nohost | origin-nohost10 | abs-https | abs-https-nohost | abs-http | abs-http-nohost
-	Target string `json:"target"` // literal request-target
-	Proto  string `json:"proto"`
-	Host   string `json:"host"`           // literal Host header ("" = none)
-	Hij    string `json:"hij,omitempty"`  // "" | req | res
-	Pipe   bool   `json:"pipe,omitempty"` // written to the connection together with the previous request (pipelined, one write)
-	Up     string `json:"up,omitempty"`   // "" | plainreply: the origin answers the TLS ClientHello for this request's (own) host with plain bytes
+	X       string `json:"x"`
+	Form    string `json:"form"`   // origin | origin-nohost | origin-nohost10 | abs-https | abs-https-nohost | abs-http | abs-http-nohost
+	Target  string `json:"target"` // literal request-target
+	Proto   string `json:"proto"`
+	Host    string `json:"host"`               // literal Host header ("" = none)
+	Hij     string `json:"hij,omitempty"`      // "" | req | res
+	DelayMs int    `json:"delay_ms,omitempty"` // the origin waits at least this long before answering
+	Pipe    bool   `json:"pipe,omitempty"`     // written to the connection together with the previous request (pipelined, one write)
+	Up      string `json:"up,omitempty"`       // "" | plainreply: the origin answers the TLS ClientHello for this request's (own) host with plain bytes
 }
 
 type conn5 struct {
@@ -166,6 +173,7 @@ func sameAuthority(got string, ai authInfo) bool {
 }
 
 func genCase(rng *rand.Rand, stream string, idx int, race bool) c05Case {
+	slow := strings.Contains(stream, "slow")
 	c := c05Case{Kind: "c05", Idx: idx, Stream: stream, Transport: "pipe"}
 	c.Listener = []string{"plain", "plain", "shaped", "shaped", "tls"}[rng.Intn(5)]
 	if !race && rng.Intn(4) == 0 {
@@ -175,11 +183,26 @@ func genCase(rng *rand.Rand, stream string, idx int, race bool) c05Case {
 	if race {
 		n = 3 + rng.Intn(4)
 	}
+	if slow {
+		n = 4
+	}
 	tag := strings.NewReplacer("-", "", "mitm", "m", "race", "r", "c05", "").Replace(stream)
 	for ci := 0; ci < n; ci++ {
 		cs := conn5{T: fmt.Sprintf("%sk%dc%dt", tag, idx, ci), Inner: "tls"}
-		if c.Listener != "tls" && rng.Intn(6) == 0 {
-			cs.Inner = "clear"
+		if c.Listener != "tls" {
+			// what the client sends after the 200: a TLS handshake, cleartext HTTP,
+			// or a handshake the proxy must refuse followed by cleartext HTTP
+			switch x := rng.Intn(100); {
+			case x < 16:
+				cs.Inner = "clear"
+			case x < 22:
+				cs.Inner = "failhs-garbage"
+			case x < 28:
+				cs.Inner = "failhs-alpn"
+			}
+		}
+		if slow {
+			cs.Inner = "tls"
 		}
 		// how the client spells the CONNECT authority (not on the transparent listener)
 		if c.Listener != "tls" {
@@ -207,6 +230,16 @@ func genCase(rng *rand.Rand, stream string, idx int, race bool) c05Case {
 		if rng.Intn(100) < 35 {
 			hijAt = rng.Intn(nreq)
 		}
+		if strings.HasPrefix(cs.Inner, "failhs-") {
+			hijAt = -1
+		}
+		slowAt := -1
+		if slow {
+			// one exchange of the connection takes longer than 10 s at the origin
+			nreq, hijAt, pipelining = 2+rng.Intn(2), -1, false
+			slowAt = []int{0, 0, 0, 1}[rng.Intn(4)]
+		}
+		nested := false // a CONNECT has been sent inside the decrypted connection
 		for i := 0; i < nreq; i++ {
 			q := req5{X: fmt.Sprintf("%sk%dc%dr%d", tag, idx, ci, i), Proto: "HTTP/1.1"}
 			// the host a given target / Host header names: the tunnel host (with or
@@ -221,18 +254,30 @@ func genCase(rng *rand.Rand, stream string, idx int, race bool) c05Case {
 			}
 			var forms []string
 			switch {
-			case cs.Inner == "clear":
+			case cs.Inner != "tls":
 				forms = []string{"origin", "origin", "abs-http", "abs-http-nohost"}
-			case c.Listener == "tls":
-				forms = []string{"origin", "origin", "abs-https", "abs-https-nohost", "abs-http", "abs-http-nohost"}
+			case slow:
+				forms = []string{"origin", "abs-https"}
+			case c.Listener == "tls" || nested:
+				forms = []string{"origin", "origin", "abs-https", "abs-https-nohost", "abs-http", "abs-http-nohost", "connect"}
 			default:
-				forms = []string{"origin", "origin", "origin-nohost", "origin-nohost10", "abs-https", "abs-https-nohost", "abs-http", "abs-http-nohost"}
+				forms = []string{"origin", "origin", "origin-nohost", "origin-nohost10", "abs-https", "abs-https-nohost", "abs-http", "abs-http-nohost", "connect"}
 			}
 			q.Form = forms[rng.Intn(len(forms))]
-			if cs.Inner == "clear" && given == ai.auth {
+			if q.Form == "connect" && i == hijAt {
+				q.Form = "origin"
+			}
+			if i == slowAt {
+				q.DelayMs = 11000
+			}
+			if cs.Inner != "tls" && given == ai.auth {
 				given = ai.bare
 			}
 			switch q.Form {
+			case "connect":
+				// a CONNECT (authority form) read from the already decrypted connection
+				q.Target, q.Host = modx.Host(q.X)+":443", modx.Host(q.X)+":443"
+				own, nested = false, true
 			case "origin":
 				q.Target, q.Host = "/"+q.X, given
 			case "origin-nohost":
@@ -277,7 +322,11 @@ func genCase(rng *rand.Rand, stream string, idx int, race bool) c05Case {
 
 func render(q req5) string {
 	var sb strings.Builder
-	fmt.Fprintf(&sb, "GET %s %s\r\n", q.Target, q.Proto)
+	m := "GET"
+	if q.Form == "connect" {
+		m = "CONNECT"
+	}
+	fmt.Fprintf(&sb, "%s %s %s\r\n", m, q.Target, q.Proto)
 	if q.Host != "" {
 		fmt.Fprintf(&sb, "Host: %s\r\n", q.Host)
 	}
@@ -390,6 +439,12 @@ func runConn(g *modx.Rig, c c05Case, cs conn5, out *connOut) {
 		st := cl.TLS.ConnectionState()
 		out.cstate = &st
 	}
+	if strings.HasPrefix(cs.Inner, "failhs-") {
+		if err := cl.FailHandshake(strings.TrimPrefix(cs.Inner, "failhs-"), ai.verify); err != nil {
+			out.harness = "refused-handshake step: " + err.Error()
+			return
+		}
+	}
 	for i := 0; i < len(cs.Reqs); {
 		// a group = one request plus the requests pipelined behind it, sent in one write
 		j := i + 1
@@ -417,6 +472,9 @@ func runConn(g *modx.Rig, c c05Case, cs conn5, out *connOut) {
 			acts = append(acts, a)
 			if q.Up == "plainreply" {
 				g.O.SetPlainReply(modx.Host(q.X))
+			}
+			if q.DelayMs > 0 {
+				g.O.SetDelay(q.X, time.Duration(q.DelayMs)*time.Millisecond)
 			}
 			sb.WriteString(render(q))
 		}
@@ -450,7 +508,11 @@ func runConn(g *modx.Rig, c c05Case, cs conn5, out *connOut) {
 				}
 				return
 			}
-			resp, err := cl.ReadResponse("GET")
+			m := "GET"
+			if q.Form == "connect" {
+				m = "CONNECT"
+			}
+			resp, err := cl.ReadResponse(m)
 			o.resp, o.cerr = resp, err
 			if err != nil {
 				return
@@ -647,7 +709,7 @@ func runCase(r *vh.Run, ca *modx.CA, c c05Case) {
 						}
 					}
 				}
-				if ro.reached && q.Hij != "req" && q.Up == "" && len(arrX[q.X]) == 0 && !hostViolated {
+				if ro.reached && q.Hij != "req" && q.Up == "" && q.Form != "connect" && len(arrX[q.X]) == 0 && !hostViolated {
 					r.Violation("C05:forwarded:"+q.Form, "a request decrypted from the tunnel never reached the origin", wit(nil))
 				}
 			}
@@ -663,6 +725,9 @@ func runCase(r *vh.Run, ca *modx.CA, c c05Case) {
 					rc := q.Form
 					if ro.grp != "single" {
 						rc = "pipelined"
+					}
+					if q.DelayMs > 0 {
+						rc = "slow-exchange"
 					}
 					r.Violation("C05:response-in-session:"+rc, "no complete response came back inside the client's session, in order (the client reads only through it)", wit(map[string]interface{}{"pipelining": ro.grp}))
 				}
@@ -719,6 +784,10 @@ func runCase(r *vh.Run, ca *modx.CA, c c05Case) {
 			}
 			r.Class(fmt.Sprintf("history/pre-%s/%s/%s/idx%s", pre, lclass, cs.Inner, idxBucket(ro.idx)))
 			r.Class(fmt.Sprintf("pipeline/%s/%s/%s", ro.grp, cs.Inner, hj))
+			if q.DelayMs > 0 {
+				r.Class(fmt.Sprintf("slow-origin/%s/idx%s/%s", lclass, idxBucket(ro.idx), q.Form))
+				r.Count("slow_exchanges", 1)
+			}
 		}
 	}
 	if c.Idx == 0 {
@@ -761,6 +830,9 @@ func run(r *vh.Run, batch string) {
 	n := r.Pick(30, 400)
 	if race {
 		n = r.Pick(8, 80)
+	}
+	if strings.HasPrefix(batch, "slow-") {
+		n = 3
 	}
 	for i := 0; i < n; i++ {
 		c := genCase(r.Rng("c05-"+batch, i), "c05-"+batch, i, race)
